@@ -758,6 +758,7 @@ class Emitter:
             if not ii:
                 return extra + p + 'return;\n'
             e = ii[0]
+            self.mark_elided(e)
             nv = self.nrvo_var(e)
             if nv is not None:
                 # named return value optimisation as marked by clang: the local IS the return object
@@ -947,6 +948,8 @@ class Emitter:
         name = d['name']
         init = inner(d)
         init = init[-1] if init and d.get('init') else None
+        if init is not None:
+            self.mark_elided(init)
         hook = self.opts.get('local_var')
         if hook:
             r = hook(self, d, t, init, ind, fn)
@@ -1374,7 +1377,32 @@ class Emitter:
         return self.E(inner(n)[0])
 
     def E_CXXBindTemporaryExpr(self, n):
+        # a temporary whose destructor runs at the end of the full expression: library types are covered by their models
+        # (M-mem, M-lock ...); a temporary of one of the extracted classes with a non-trivial destructor is not lowered -
+        # unless it directly initialises a variable or the return value (guaranteed elision: there is no temporary then)
+        if n.get('id') not in getattr(self, 'elided_temporaries', set()):
+            dt = n.get('dtor') or {}
+            dfn = self.tu.func(dt.get('id')) if dt.get('id') and hasattr(self.tu, 'func') else None
+            if dfn is not None:
+                rec = self.tu.parent_rec.get(dfn['id'])
+                dd = (rec or {}).get('definitionData', {}).get('dtor', {})
+                if rec is not None and dd and not dd.get('trivial') and not dd.get('irrelevant') and has_body(dfn):
+                    raise ExtractError('temporary of class %s with a non-trivial destructor (no lowering)' % self.tu.rec_name.get(rec['id'], '?'))
         return self.E(inner(n)[0])
+
+    def mark_elided(self, e):
+        """temporaries that directly initialise a variable / the return value are not temporaries (C++17 elision)"""
+        self.elided_temporaries = getattr(self, 'elided_temporaries', set())
+        c = e
+        while isinstance(c, dict):
+            if c.get('kind') == 'CXXBindTemporaryExpr':
+                self.elided_temporaries.add(c.get('id'))
+            if c.get('kind') in ('ExprWithCleanups', 'CXXBindTemporaryExpr', 'ImplicitCastExpr', 'MaterializeTemporaryExpr', 'CXXFunctionalCastExpr', 'ParenExpr') and inner(c):
+                c = inner(c)[0]
+            elif c.get('kind') == 'CXXConstructExpr' and c.get('elidable') and inner(c):
+                c = inner(c)[0]
+            else:
+                break
 
     def E_SubstNonTypeTemplateParmExpr(self, n):
         return self.E(inner(n)[-1])
